@@ -37,6 +37,10 @@ def verify(patch, demo):
         rc, _ = _demo(demo, repo)
         out["demo_clean_rc"] = rc
         r = subprocess.run(["git", "-C", repo, "apply", os.path.abspath(patch)], stdout=subprocess.PIPE, stderr=subprocess.STDOUT)
+        if r.returncode != 0:
+            # /repo gained fix: commits while the change was being written: merge
+            r = subprocess.run(["git", "-C", repo, "apply", "--3way", os.path.abspath(patch)], stdout=subprocess.PIPE, stderr=subprocess.STDOUT)
+            out["applied_with_3way"] = r.returncode == 0
         out["applies"] = r.returncode == 0
         if not out["applies"]:
             out["apply_error"] = r.stdout.decode()[-500:]
